@@ -565,17 +565,22 @@ class Light(Device):
         if not self.supports_hs_color:
             logger.warning("HS-color not supported for device %s", self.get_name())
             return
+        hue = hs_color[0]
+        saturation = hs_color[1]
+        # convert both values before sending - raises ConversionError if one is invalid
+        hue_payload = self.hue.to_knx(hue)
+        saturation_payload = self.saturation.to_knx(saturation)
         value_sent = False
-        if (hue := hs_color[0]) != self.hue.value:
-            self.hue.set(hue)
+        if hue != self.hue.value:
+            self.hue.send_raw(hue_payload)
             value_sent = True
-        if (saturation := hs_color[1]) != self.saturation.value:
-            self.saturation.set(saturation)
+        if saturation != self.saturation.value:
+            self.saturation.send_raw(saturation_payload)
             value_sent = True
         if not value_sent:
             # at least one value shall be sent to enable turn-on by hs_color
-            self.hue.set(hue)
-            self.saturation.set(saturation)
+            self.hue.send_raw(hue_payload)
+            self.saturation.send_raw(saturation_payload)
 
     def _xyy_color_from_rv(self, xyy_color: XYYColor) -> None:
         """Update the current xyY-color from RemoteValue (Callback)."""
